@@ -14,7 +14,8 @@ from hidrun import Case, Run
 Cfg = namedtuple('Cfg', 'args w stack unchecked')
 Cfg.__new__.__defaults__ = ((), 2, 300, False)
 # result of one configuration
-Res = namedtuple('Res', 'cfg run ref diff')
+Res = namedtuple('Res', 'cfg run ref diff extra')
+Res.__new__.__defaults__ = (None,)
 NOVERDICT = ('diverged', 'uninit', 'undefined', 'unsupported')
 
 
@@ -39,6 +40,9 @@ def compare(run, ref):
 
 def _unit(a):
     src, cfgs, fuel, ref_fuel, watch_labels, want_ref, opts = a
+    watch_yields = watch_labels == 'yields'
+    if watch_yields:
+        watch_labels = None
     from hidc.errors import CompilerError
     from hidc.codegen import CodeGen
     out = []
@@ -73,17 +77,23 @@ def _unit(a):
             continue
         try:
             p = sasm.assemble(val, c.args)
+        except sasm.AsmTooBig as e:
+            out.append((i, Run('too_big', str(e), None, None, b'', [], [], [], None)))
+            continue
         except sasm.AsmError as e:
             out.append((i, Run('asm_error', str(e), None, None, b'', [], [], [], None)))
             continue
         watch = ()
         if watch_labels:
             watch = sorted({ad for n, ad in p.labels.items() if p.label_sections[n] == 'code' and watch_labels(n)})
+        if watch_yields:
+            watch = [k for k, (op, _) in enumerate(p.code) if op == 'yield']
         texts.append(sasm.to_driver(p, str(i), fuel, watch))
         slots.append((i, p))
     if texts:
         for (i, p), r in zip(slots, vmrun.run_batch(texts)):
-            run = Run('ran', '', r.kind, r.pc, r.out, r.flags, r.events, r.snaps, {a: n for n, a in p.labels.items() if p.label_sections[n] == 'code'} if watch_labels else None)
+            run = Run('ran', '', r.kind, r.pc, r.out, r.flags, r.events, r.snaps,
+                      {a: n for n, a in p.labels.items() if p.label_sections[n] == 'code'} if watch_labels else ({'stack_start': p.labels.get('stack_start')} if watch_yields else None))
             out.append((i, run))
     out.sort(key=lambda x: x[0])
     res = []
@@ -96,9 +106,9 @@ def _unit(a):
         key = (c.args, c.w, c.unchecked)
         if key not in refs:
             rr = hidref.Ref(prog, env, c.w, c.unchecked, ref_fuel)
-            refs[key] = rr.run(c.args) + (rr.alloc_marks,)
+            refs[key] = rr.run(c.args) + (rr.alloc_marks, rr.wrapped)
         ref = refs[key]
-        res.append(Res(c, run, ref[:4], compare(run, ref[:4])))
+        res.append(Res(c, run, ref[:4], compare(run, ref[:4]), {'alloc_marks': ref[4], 'wrapped': ref[5]}))
     return res
 
 
